@@ -18,6 +18,7 @@ type Config struct {
 	Clients        []int `json:"clients"`   // indices into the client address pool
 	Deny           []int `json:"deny"`      // peer-pool indices the permission handler refuses
 	DenyClient     int   `json:"deny_client"` // -1: deny for everybody; else only for this client index
+	DenyAfterS     int   `json:"deny_after_s,omitempty"` // >0: the deny list only applies from this many seconds after start
 	NoAuth         bool  `json:"no_auth,omitempty"`     // no AuthHandler configured
 	Quota          int   `json:"quota,omitempty"`       // >0: at most this many allocations per user (QuotaHandler)
 	GenFailAt      int   `json:"gen_fail_at,omitempty"` // >0: the n-th relay allocation attempt fails
